@@ -26,6 +26,7 @@ def dispatch (cmd : String) (fields : List String) : String :=
   | "repat" => cmdRePat fields
   | "renfa" => cmdReNFA fields
   | "respec" => cmdReSpec fields
+  | "winner" => cmdWinner fields
   | "renfafixed" => cmdReNFAFixed fields
   | "reast" => cmdReAST fields
   | _ => "UNKNOWN-COMMAND"
